@@ -337,7 +337,7 @@ func deepCalls(fn *ssa.Function, pred func(ssa.CallInstruction) bool, depth int)
 					return // a goroutine started here is not part of this function's own control flow
 				}
 				if d < depth {
-					if cal := c.Common().StaticCallee(); cal != nil && cal.Pkg == fn.Pkg && len(cal.Blocks) > 0 && cal != fn {
+					if cal := calleeOf(c); cal != nil && cal.Pkg == fn.Pkg && len(cal.Blocks) > 0 && cal != fn {
 						visit(cal, append(append([]ssa.CallInstruction{}, chain...), c), d+1)
 					}
 				}
@@ -354,7 +354,7 @@ func (d dcall) path(v ssa.Value) string {
 	p := pathOf(v)
 	for i := len(d.chain) - 1; i >= 0; i-- {
 		cs := d.chain[i]
-		cal := cs.Common().StaticCallee()
+		cal := calleeOf(cs)
 		if cal == nil {
 			break
 		}
@@ -379,7 +379,7 @@ func (d dcall) argValue(v ssa.Value) ssa.Value {
 			return v
 		}
 		cs := d.chain[i]
-		cal := cs.Common().StaticCallee()
+		cal := calleeOf(cs)
 		if cal == nil {
 			return v
 		}
@@ -408,7 +408,7 @@ func delegateFor(fn *ssa.Function, p ssa.Value) (*ssa.Function, *ssa.Parameter, 
 		if !ok || rf != nil {
 			return
 		}
-		cal := c.Common().StaticCallee()
+		cal := calleeOf(c)
 		if cal == nil || cal.Pkg != fn.Pkg || len(cal.Blocks) == 0 {
 			return
 		}
@@ -431,7 +431,7 @@ func delegateForPath(fn *ssa.Function, path string) (*ssa.Function, *ssa.Paramet
 		if !ok || rf != nil {
 			return
 		}
-		cal := c.Common().StaticCallee()
+		cal := calleeOf(c)
 		if cal == nil || cal.Pkg != fn.Pkg || len(cal.Blocks) == 0 {
 			return
 		}
